@@ -185,7 +185,7 @@ def run(check):
                             if st == "none":
                                 continue      # a reference without any `use` or qualification names no crate: out of scope
                             if re.search(r"\b(?:self|crate|super)::(?:\w+::)*%s\b" % re.escape(wname), render_file(f["file"])):
-                                # `self::T` next to `use other::T;` records a second import of T (from the current crate);
+                                # `self::T` (or `super::m::T`) next to `use other::T;` records a second import of T (from the current crate);
                                 # which one HashSet::find returns depends on the hash seed (the ambiguous class of C06)
                                 check.count("ambiguous: qualified self/crate/super path next to a use")
                                 continue
